@@ -74,8 +74,17 @@ def side_conditions(es):
             lemmas.append(a * EXP(-a.arg(0)) == 1)
             lemmas.append(EXP(-a.arg(0)) > 0)
             lemmas.append(a * a == EXP(2 * a.arg(0)))
+            lemmas.append(a * a * a == EXP(3 * a.arg(0)))
             for b in exps[i + 1:]:
                 lemmas.append(a * b == EXP(a.arg(0) + b.arg(0)))
+    # parity (sympy moves signs through odd / even functions): instantiated for pairs of occurring applications
+    for fname, sign in (('sin', -1), ('tan', -1), ('tanh', -1), ('sinh', -1), ('arctan', -1), ('arcsin', -1),
+                        ('cos', 1), ('cosh', 1)):
+        apps = uf_apps.get(fname, [])
+        if len(apps) <= 6:
+            for i, a in enumerate(apps):
+                for b in apps[i + 1:]:
+                    lemmas.append(z3.Implies(a.arg(0) == -b.arg(0), a == sign * b))
     for t in uf_apps.get('tanh', []):
         lemmas.append(z3.And(t > -1, t < 1))
     for t in uf_apps.get('cosh', []):
